@@ -30,7 +30,8 @@ RULE = ("every wrapper class discovered by inspect in pypika.terms/functions/ana
         "window classes in the thorough tier; one complete frame block (2 kinds x (19 single + 361 BETWEEN) bounds) "
         "[exhaustive over frame shapes x bound set: true]; a block over every ordered pair of filter-criterion shapes "
         "(simple/OR/AND/XOR/AND-over-OR, one call or two) and a block of DISTINCT with arguments/criteria containing the "
-        "wrapper's own NAME( ; branching construction histories (a base wrapper specialised 2-3 times, each member of the "
+        "wrapper's own NAME( ; a scalar sub-query in every position (argument, CAST/EXTRACT, FILTER operand, PARTITION BY / "
+        "ORDER BY term); branching construction histories (a base wrapper specialised 2-3 times, each member of the "
         "family incl. the base compared with the model on its own call history, derivation and rendering order varied) "
         "[exhaustive over frame shapes x bound set: true]; random Function/CustomFunction calls with 0-6 arguments; "
         "malformed stream: unsupported clause methods, second frame, filter() without criteria or with only EmptyCriterion "
@@ -359,6 +360,8 @@ def arg_value(spec):
     if t == "selfcall":                 # a call whose text contains the wrapper's own NAME( : NAME("z<k>") or CHECKNAME("z<k>")
         from pypika.terms import Function
         return Function(("CHECK" if k % 2 == 0 else "") + spec[2], Field("z%d" % k)), "PTerm"
+    if t == "subq":                     # a scalar sub-query as an argument
+        return subq("a", k), "PTerm"
     if t == "int":
         return 8100 + k, "PTerm"
     if t == "str":
@@ -410,6 +413,17 @@ def arg_alone_text(spec):
 N_CRIT = 10
 
 
+def subq(tag, k):
+    """a scalar sub-query sentinel; its statement text is subq_inner(tag, k)"""
+    from pypika import Query, Table, functions as fn
+    u = Table("q%s%d" % (tag, k))
+    return Query.from_(u).select(fn.Max(u.qx))
+
+
+def subq_inner(tag, k):
+    return 'SELECT MAX("qx") FROM "q%s%d"' % (tag, k)
+
+
 def crit_atoms():
     """filter criteria: six simple ones, then OR-, AND-, XOR-complex ones and an AND whose left member is an OR"""
     from pypika import Field
@@ -424,6 +438,9 @@ def crit_obj(i):
     a criterion whose text contains a function call of the given name"""
     from pypika import EmptyCriterion, Field
     from pypika.terms import Function
+    if isinstance(i, list) and i[0] == "subcrit":     # a criterion with a scalar sub-query operand / an IN (sub-query)
+        f = Field("fs%d" % i[1])
+        return [f > subq("c", i[1]), f.isin(subq("c", i[1])), subq("c", i[1]) <= f][i[2] % 3]
     if isinstance(i, list):
         return Function(i[1], Field("fq%d" % i[2])) > 1
     return EmptyCriterion() if i < 0 else crit_atoms()[i]
@@ -435,7 +452,8 @@ def crit_is_empty(i):
 
 def crit_text(i):
     """the criterion rendered alone (not as a sub-criterion)"""
-    return None if crit_is_empty(i) else crit_obj(i).get_sql(**_kw())
+    # like a statement's WHERE: sub-queries inside the criterion are parenthesised units (subquery=True)
+    return None if crit_is_empty(i) else crit_obj(i).get_sql(subquery=True, **_kw())
 
 
 def crit_needs_brackets(i):
@@ -464,11 +482,13 @@ def win_term(spec):
         return fn.Coalesce(Field("v%d" % k), 6000 + k)
     if t == "arith":
         return Field("w%d" % k) * (7000 + k)
+    if t == "subq":
+        return subq("w", k)
     raise ValueError(spec)
 
 
 def win_text(spec):
-    return win_term(spec).get_sql(**_kw())
+    return win_term(spec).get_sql(subquery=True, **_kw())      # a sub-query term is one parenthesised unit
 
 
 def bound_value(b):
@@ -677,7 +697,7 @@ def to_coq(case, outcome):
 # ==============================================================================================
 # generator
 # ==============================================================================================
-TERM_SPECS = ["field", "field", "field", "int", "str", "fn", "arith", "case", "crit"]
+TERM_SPECS = ["field", "field", "field", "int", "str", "fn", "arith", "case", "crit", "subq"]
 
 
 def pick_args(rng, kinds, variety=True, special=None, cls=None):
@@ -687,7 +707,7 @@ def pick_args(rng, kinds, variety=True, special=None, cls=None):
     sp_ix = special[1] if special else None
     for k, kd in enumerate(kinds):
         if kd == "PTerm" and k == sp_ix:
-            out.append([rng.choice(["field", "fn", "arith"] + (["sqltype", "sqltype"] if cls == "Cast" else [])) if variety else "field", k])
+            out.append([rng.choice(["field", "fn", "arith"] + (["sqltype", "sqltype"] if cls == "Cast" else ["subq"])) if variety else "field", k])
         elif kd == "PTerm":
             out.append([rng.choice(TERM_SPECS) if variety else "field", k])
         elif kd == "PWord":
@@ -714,7 +734,7 @@ def rand_frame(rng):
 
 
 def rand_win_terms(rng, n, base):
-    return [[rng.choice(["field", "field", "fn", "arith"]), base + i] for i in range(n)]
+    return [[rng.choice(["field", "field", "field", "fn", "arith", "subq"]), base + i] for i in range(n)]
 
 
 def clause_ops(rng, e, flags):
@@ -729,6 +749,8 @@ def clause_ops(rng, e, flags):
         cs = rng.sample(range(N_CRIT), n)
         if rng.random() < 0.2:
             cs.insert(rng.randrange(len(cs) + 1), -1)               # an EmptyCriterion among the criteria
+        if rng.random() < 0.15:
+            cs.insert(rng.randrange(len(cs) + 1), ["subcrit", rng.randrange(3), rng.randrange(3)])   # a sub-query operand
         ops.append(["filter", cs])
         if rng.random() < 0.25:
             ops.append(["filter", rng.choice([[rng.randrange(N_CRIT)], [], [-1]])])
@@ -1011,8 +1033,37 @@ def branch_block(rng, tier):
     return out
 
 
+def subquery_block(rng):
+    """a scalar sub-query in every position of the family: plain argument, inside CAST / EXTRACT, FILTER criterion operand
+    (alone, first, last; > , IN, reversed), PARTITION BY term, ORDER BY term with and without direction, all at once"""
+    S0, Q0, Q1 = ["field", 0], ["subq", 0], ["subq", 1]
+    out = [
+        {"mod": "pypika.functions", "cls": "Coalesce", "args": [Q0, ["int", 1]], "ops": []},
+        {"mod": "pypika.functions", "cls": "Cast", "args": [Q0, ["word", 3]], "ops": []},
+        {"mod": "pypika.functions", "cls": "Extract", "args": [["word", 0], Q1], "ops": []},
+        {"mod": "pypika.functions", "cls": "Sum", "args": [Q0], "ops": [["distinct"]]},
+        {"mod": "pypika.terms", "cls": "Function", "name": "GEN_FN", "args": [S0, Q1, ["subq", 2]], "ops": []},
+    ]
+    for form in range(3):
+        sc = ["subcrit", form, form]
+        for cs in ([sc], [sc, 0], [6, sc], [0, sc, ["subcrit", 2, (form + 1) % 3]]):
+            out.append({"mod": "pypika.functions", "cls": "Sum", "args": [S0], "ops": [["filter", cs]]})
+            out.append({"mod": "pypika.analytics", "cls": "Max", "args": [S0], "ops": [["filter", cs], ["over", [["field", 0]]]]})
+    for d in (None, "asc", "desc"):
+        out.append({"mod": "pypika.analytics", "cls": "Sum", "args": [S0], "ops": [["over", [["field", 0]]], ["orderby", [["subq", 1]], d]]})
+        out.append({"mod": "pypika.analytics", "cls": "Rank", "args": [], "ops": [["orderby", [["field", 0], ["subq", 1]], d]]})
+    out.append({"mod": "pypika.analytics", "cls": "Sum", "args": [S0], "ops": [["over", [["subq", 0]]]]})
+    out.append({"mod": "pypika.analytics", "cls": "Sum", "args": [S0], "ops": [["over", [["field", 0], ["subq", 1], ["fn", 2]]]]})
+    out.append({"mod": "pypika.analytics", "cls": "FirstValue", "args": [Q0], "alias": "al",
+                "ops": [["ignore_nulls"], ["filter", [["subcrit", 0, 0], 1]], ["over", [["subq", 1]]], ["orderby", [["subq", 2]], "desc"],
+                        ["rows", ["prec", 1], ["cur"]]], "ro": {"with_alias": True}})
+    for c in out:
+        c.setdefault("ro", {})
+    return out
+
+
 def gen_cases(rng, tier):
-    out = frame_block(rng) + distinct_block(rng) + filter_block(rng) + branch_block(rng, tier) + wrapper_cases(rng, tier)
+    out = subquery_block(rng) + frame_block(rng) + distinct_block(rng) + filter_block(rng) + branch_block(rng, tier) + wrapper_cases(rng, tier)
     out += generic_cases(rng, 300 if tier == "quick" else 4000)
     out += malformed_cases(rng, 150 if tier == "quick" else 1500)
     if tier != "quick":
@@ -1034,6 +1085,11 @@ def corpus():
         # fixed (b2a2b7a): CustomFunction without declared params ignored its call arguments
         {"mod": "pypika.terms", "cls": "CustomFunction", "name": "CF", "params": None, "args": [["field", 0], ["field", 1]],
          "ops": [], "ro": {}},
+        # fixed (b529b5f): a scalar sub-query in FILTER / PARTITION BY / ORDER BY / EXTRACT(.. FROM ..) was not parenthesised
+        {"mod": "pypika.functions", "cls": "Sum", "args": s0, "ops": [["filter", [["subcrit", 0, 0]]]], "ro": {}},
+        {"mod": "pypika.analytics", "cls": "Sum", "args": s0, "ops": [["over", [["field", 0]]], ["orderby", [["subq", 1]], None]], "ro": {}},
+        {"mod": "pypika.analytics", "cls": "Sum", "args": s0, "ops": [["over", [["subq", 0]]]], "ro": {}},
+        {"mod": "pypika.functions", "cls": "Extract", "args": [["word", 0], ["subq", 1]], "ops": [], "ro": {}},
         # red-team seed C18-11: a base window specialised twice must not share its ORDER BY / PARTITION BY / FILTER lists
         {"mod": "pypika.analytics", "cls": "Sum", "args": s0, "ops": [["over", [["field", 0]]], ["orderby", [["field", 31]], None]], "ro": {},
          "branch": {"prefix": 1, "others": [[["orderby", [["field", 32]], "desc"]]], "before": 1, "render": "own-last"}},
@@ -1173,6 +1229,27 @@ def _top_keyword_split(item):
                 return item[:j], item[j + 1:]
         j += 1
     return item, None
+
+
+def _subqueries(case):
+    """(clause, class that renders the clause, statement text) of every sub-query sentinel handed in"""
+    out = []
+    special_ix = None
+    for e in catalogue():
+        if e["module"] == case["mod"] and e["cls"] == case["cls"]:
+            for kinds, slots, special in e["probes"]:
+                if len(kinds) == len(case["args"]) and special and special[1] is not None:
+                    special_ix = special[1]
+    for k, sp in enumerate(case["args"]):
+        if sp[0] == "subq":
+            out.append(("special", case["cls"], subq_inner("a", sp[1])) if k == special_ix else ("args", "Function", subq_inner("a", sp[1])))
+    for op in case["ops"] + [o for b in (case.get("branch") or {}).get("others", []) for o in b]:
+        if op[0] == "filter":
+            out += [("filter", "AggregateFunction", subq_inner("c", i[1])) for i in op[1] if isinstance(i, list) and i[0] == "subcrit"]
+        elif op[0] in ("over", "orderby"):
+            out += [("over-" + ("partition" if op[0] == "over" else "orderby"), "AnalyticFunction", subq_inner("w", t[1]))
+                    for t in op[1] if t[0] == "subq"]
+    return out
 
 
 def _expect(case):
@@ -1325,6 +1402,13 @@ def _oracle_one(case, outcome):
     if not _balanced(text):
         viol("parens", "unbalanced", "parentheses are not balanced")
         return V
+    # ---- a sub-query part is one parenthesised unit wherever it occurs ------------------------------
+    for where, owner, inner in _subqueries(case):
+        for m in re.finditer(re.escape(inner), text):
+            if not (m.start() > 0 and text[m.start() - 1] == "(" and text[m.end():m.end() + 1] == ")"):
+                viol(where, "subquery-not-parenthesised", "the sub-query %r given as %s is not rendered as one parenthesised unit"
+                     % (inner, where), owner=owner)
+                return V
     # ---- name and the one argument list -------------------------------------------------------------
     if not re.fullmatch(r"[A-Za-z_][A-Za-z0-9_$]*", name):
         viol("name", "not-an-identifier", "SQL name %r is not a single identifier" % name)
